@@ -514,10 +514,8 @@ def r10_formula_compile(rep, ctx):
     takes effect and wraps the argument (`float(x)`, `int(x)`, `math.sqrt(x)`) makes the compiled function
     scalar-only, so ndarray-backed Arrays convert differently from lists and Scalars."""
     m = ctx.model
-    mk = [f for q, f in m.funcs.items() if f.name == "MakeLambda" and f.parent is not None and f.parent.cls == "UnitInfo"]
-    if len(mk) != 1:
-        raise AnalysisError("UnitInfo's formula compiler (MakeLambda) was not found")
-    fn = mk[0]
+    from ..convmodel import formula_compiler
+    fn = formula_compiler(m)
     n = 0
     for st in own_statements(fn.node):
         if not isinstance(st, (ast.Assign, ast.Return)) or st.value is None:
